@@ -399,7 +399,10 @@ func nativeReplay(prop string, g GroupSpec, replayPath string) string {
 	repl := map[string]string{
 		filepath.Join(repoDir, "zz_verifrt", "rt.go"): filepath.Join(verifDir, "rt", "rt.go"),
 	}
-	rtFiles, _ := filepath.Glob(filepath.Join(verifDir, "rt", "*.go"))
+	rtFiles, err := rtFilesFor(g.Pkg)
+	if err != nil {
+		return "error " + err.Error()
+	}
 	for _, f := range rtFiles {
 		repl[filepath.Join(repoDir, "zz_verifrt", filepath.Base(f))] = f
 	}
